@@ -254,6 +254,9 @@ func runSession(se session) {
 		call(se, "Wait", func() error { _ = c.Wait(); return nil })
 	}
 	emit("D", fmt.Sprintf("%s|%s|%v|%v|%v|%s", se.Program, se.Proto, se.TLS, se.Creds, se.BackCh, mutKinds(se)))
+	if se.ID%97 == 3 && len(se.Muts) > 0 {
+		emit("S", map[string]any{"session": se, "api_call_failed": failed, "server_requests": srv.Requests.Load()})
+	}
 	emit("C", map[string]any{"n": "sessions:" + se.Program + "/" + se.Proto, "v": 1})
 	emit("C", map[string]any{"n": "server-requests-served", "v": srv.Requests.Load()})
 	for _, m := range se.Muts {
@@ -372,6 +375,10 @@ func runBatchInChild(ses []session, depth int) {
 			var s string
 			json.Unmarshal([]byte(payload), &s)
 			run.Distinct(s)
+		case "S":
+			var v any
+			json.Unmarshal([]byte(payload), &v)
+			run.Sample(v)
 		case "I":
 			run.Inconclusive("child")
 		case "X":
